@@ -246,6 +246,75 @@ theorem q_reloadTail (g' : Graph) (s : State) (b : Bool) (h : Q s) :
   · exact q_releaseRunahead C _ _ (q_computeRunahead C _ _ _ h)
   · exact q_computeRunahead C _ _ _ h
 
+theorem q_eraseHistory (s : State) (p : Int) (n : String) (h : Q s) : Q (eraseHistory s p n) := C.key h rfl
+
+theorem q_standDown (g : Graph) (p : Int) (n : String) (st : State) (c : Int × String) (h : Q st) :
+    Q (standDown g p n st c).1 := by
+  unfold standDown
+  split
+  · exact h
+  · split
+    · exact h
+    · simp only
+      split
+      · exact q_put C _ _ h
+      · split
+        · exact q_put C _ _ (q_put C _ _ h)
+        · exact q_eraseHistory C _ _ _ (q_remove C _ _ _ (q_put C _ _ (q_put C _ _ h)))
+
+theorem q_standDownAll (g : Graph) (p : Int) (n : String) (cs : List (Int × String)) (s : State) (h : Q s) :
+    Q (standDownAll g p n s cs).1 := by
+  unfold standDownAll
+  have hfold : ∀ (l : List (Int × String)) (acc : State × Bool), Q acc.1 →
+      Q (l.foldl (fun (acc : State × Bool) c =>
+        ((standDown g p n acc.1 c).1, acc.2 || (standDown g p n acc.1 c).2)) acc).1 := by
+    intro l
+    induction l with
+    | nil => intro acc ha; exact ha
+    | cons c l ih =>
+      intro acc ha
+      simp only [List.foldl_cons]
+      apply ih
+      exact q_standDown C g p n acc.1 c ha
+  exact hfold cs (s, false) h
+
+theorem q_removeTail (g : Graph) (s : State) (b : Bool) (h : Q s) : Q (removeTail g s b) := by
+  unfold removeTail
+  split
+  · split
+    · exact q_releaseRunahead C _ _ (q_computeRunahead C _ _ _ h)
+    · exact q_computeRunahead C _ _ _ h
+  · exact h
+
+theorem q_removeTarget (g : Graph) (s : State) (p : Int) (n : String) (h : Q s) : Q (removeTarget g s p n) := by
+  unfold removeTarget
+  split
+  · exact q_remove C _ _ _ h
+  · exact h
+
+theorem q_removeTask (g : Graph) (s : State) (p : Int) (n : String) (order : List (Int × String)) (h : Q s) :
+    Q (removeTask g s p n order) := by
+  unfold removeTask
+  split
+  · exact h
+  · simp only
+    split
+    · exact h
+    · apply q_removeTail C
+      apply q_flushDb C
+      apply q_eraseHistory C
+      apply q_standDownAll C
+      apply q_removeTarget C
+      exact q_flushDb C _ h
+
+theorem q_setTail (s : State) (p : Int) (n : String) (h : Q s) : Q (setTail s p n) := by
+  unfold setTail
+  split
+  · split
+    · exact q_put C _ _ h
+    · exact h
+  · exact h
+
 end reloadPath
 
 section mainLoop
@@ -486,6 +555,22 @@ theorem q_loopRest (s : State) (h : Q s) : Q (loopRest s) := by
   split
   · exact q_releaseAndSubmit L.toClosed _ (q_sweepQueue L.toClosed _ h)
   · exact q_sweepQueue L.toClosed _ h
+
+theorem q_forceOutput (g : Graph) (s : State) (x : Proxy) (msg : String) (h : Q s) :
+    Q (forceOutput g s x msg) := by
+  unfold forceOutput
+  split
+  · exact h
+  · exact q_spawnChildren L _ _ _ _ _ _ (q_put L.toClosed _ _ h)
+
+theorem q_setOut (g : Graph) (s : State) (p : Int) (n : String) (trig : String) (h : Q s) :
+    Q (setOut g s p n trig) := by
+  unfold setOut
+  split
+  · exact h
+  · split
+    · exact q_setTail L.toClosed _ _ _ h
+    · exact q_setTail L.toClosed _ _ _ (q_forceOutput L _ _ _ _ h)
 
 /-- the whole main-loop iteration, given that the queued reload command (if any) preserves `Q` -/
 theorem q_mainLoop (s : State) (cmd : Option (Option Graph)) (h : Q s)
@@ -911,6 +996,8 @@ theorem stopOK_step {fcp : Int} {file : Option Int} (s : State) (op : Op) (h : S
     · split
       · exact stopOK_mainLoop _ _ hc hfile (fun g' e => hg g' (by injection e))
       · exact (reloadCmd_stop ng _ hc hfile hg).2
+  | rm p n order => exact q_removeTask C _ _ _ _ _ hc
+  | setOut p n trig => exact q_setOut L _ _ _ _ _ hc
 
 /-- the stop-point state is coherent in every state of every run whose start graph is well formed (its stop point
 is the configured one or the final point) and whose ops are `OpOK` -/
